@@ -37,5 +37,8 @@ func Size[K cmp.Ordered, C codec[K]](r pdf.Getter, root pdf.Object) (int, error)
 	for range tree.All() {
 		count++
 	}
+	if tree != nil && tree.Err != nil {
+		return 0, tree.Err
+	}
 	return count, nil
 }
